@@ -25,7 +25,7 @@ from ..flow import dominating_atoms
 CORE = 'cirq-core/cirq/'
 GOOGLE = 'cirq-google/cirq_google/'
 SCOPES: Dict[str, Tuple[str, ...]] = {
-    'C01': (CORE + 'sim/', CORE + 'protocols/', CORE + 'circuits/', CORE + 'linalg/', CORE + 'qis/'),
+    'C01': (CORE + 'sim/', CORE + 'protocols/', CORE + 'circuits/', CORE + 'linalg/', CORE + 'qis/', CORE + 'transformers/measurement_transformers.py'),
     'C02': (CORE + 'sim/', CORE + 'value/', CORE + 'qis/', CORE + 'ops/measure', CORE + 'ops/pauli_measurement', CORE + 'ops/classically', CORE + 'ops/if_op'),
     'C03': (CORE + 'ops/', GOOGLE + 'ops/', 'cirq-ionq/cirq_ionq/ionq_native_gates.py'),
     'C04': (CORE + 'ops/', CORE + 'protocols/', CORE + 'sim/'),
@@ -107,6 +107,7 @@ DIR_DEFAULT = [   # first matching prefix wins; None = belongs to no property
 FILE_EXTRA = {   # files whose behaviour a second property states explicitly
     GOOGLE + 'api/v2/results.py': ('C18',),
     GOOGLE + 'engine/engine_result.py': ('C18', 'C16'),
+    CORE + 'transformers/measurement_transformers.py': ('C01',),   # sim/mux drops terminal measurements through it for final_state_vector
 }
 
 
@@ -1103,6 +1104,147 @@ def one_shot_in_loop_rule(ctx, rid: str, pid: str, floor: int = 0):
                    'first sees nothing', m.rel, hits[0][0].lineno if hits else fn.lineno)
     return n
 
+def stale_read_rule(ctx, rid: str, pid: str, floor: int = 0):
+    """A value read from X[b] before a store to X[a] is written back to X[b] - lost update when a == b."""
+    repo = ctx.repo
+    ctx.rule(rid, 'no read-modify-write across a store that may alias it: where two indices a, b come from the same unpacking (a window start and end, a pair of positions) and the function '
+             'never compares them, a value read from X[b] that is written back into X[b] is read after every store into X[a] of the same block - read earlier, the update made through a is '
+             'overwritten whenever a == b (a one-moment window, a self-pair)', floor=floor, style='TNT')
+
+    def sub_index(e):
+        """(base text, index name) of the innermost subscript X[i] with a plain-name index inside e"""
+        cur = e
+        found = None
+        while isinstance(cur, (ast.Subscript, ast.Attribute, ast.Call)):
+            if isinstance(cur, ast.Subscript) and isinstance(cur.slice, ast.Name):
+                found = (ast.unparse(cur.value), cur.slice.id)
+            cur = cur.func if isinstance(cur, ast.Call) else cur.value
+        return found
+    n = 0
+    for m, ci, fn in _functions(repo, pid):
+        pairs = set()
+        for x in ast.walk(fn):
+            tgt = None
+            if isinstance(x, (ast.For, ast.comprehension)):
+                tgt = x.target
+            elif isinstance(x, ast.Assign) and len(x.targets) == 1:
+                tgt = x.targets[0]
+            if isinstance(tgt, ast.Tuple) and all(isinstance(e, ast.Name) for e in tgt.elts):
+                ids = [e.id for e in tgt.elts]
+                pairs |= {(a, b) for a in ids for b in ids if a != b}
+        if not pairs:
+            continue
+        compared = set()
+        for x in ast.walk(fn):
+            if isinstance(x, ast.Compare):
+                ns = {y.id for y in ast.walk(x) if isinstance(y, ast.Name)}
+                compared |= {(a, b) for a in ns for b in ns}
+        reads = []    # (position, local, base, index)
+        stores = []   # (position, base, index, value names, node)
+        for x in ast.walk(fn):
+            if isinstance(x, (ast.Assign, ast.NamedExpr)):
+                t = x.targets[0] if isinstance(x, ast.Assign) and len(x.targets) == 1 else getattr(x, 'target', None)
+                pos = (x.lineno, x.col_offset)
+                if isinstance(t, ast.Name):
+                    si = sub_index(x.value)
+                    if si:
+                        reads.append((pos, t.id, si[0], si[1]))
+                if isinstance(x, ast.Assign) and isinstance(t, ast.Subscript):
+                    si = sub_index(t)
+                    if si:
+                        stores.append((pos, si[0], si[1], {y.id for y in ast.walk(x.value) if isinstance(y, ast.Name)}, x))
+        done = set()
+        for (rp, loc, base, b) in sorted(reads):
+            back = sorted((s_ for s_ in stores if s_[1] == base and s_[2] == b and loc in s_[3] and s_[0] > rp), key=lambda s_: s_[0])
+            # the local must not be re-bound between the read and the write-back
+            back = [s_ for s_ in back if not any(r_[1] == loc and rp < r_[0] < s_[0] for r_ in reads)]
+            if not back or (base, b) in done:
+                continue
+            others = [s_ for s_ in stores if s_[1] == base and s_[2] != b and (s_[2], b) in pairs and (s_[2], b) not in compared]
+            if not others:
+                continue
+            done.add((base, b))
+            n += 1
+            bad = [s_ for s_ in others if rp < s_[0] < back[0][0]]
+            ctx.ob(rid, f'{m.name}.{(ci.name + ".") if ci else ""}{fn.name}:{base}[{b}]', not bad, '' if not bad else
+                   f'`{loc}` is read from {base}[{b}] before `{ast.unparse(bad[0][4].targets[0])} = ...` and written back to {base}[{b}] after it; {bad[0][2]} and {b} come from the same '
+                   f'unpacking and are never compared: when {bad[0][2]} == {b} the first update is lost', m.rel, bad[0][4].lineno if bad else rp[0])
+    return n
+
+def partial_mask_zip_rule(ctx, rid: str, pid: str, floor: int = 0):
+    """A measurement gate's raw invert_mask (possibly shorter than the qubits) is not zipped position by position unless absence means nothing."""
+    repo = ctx.repo
+    ctx.rule(rid, 'a partial mask is padded before it is paired: `<gate>.invert_mask` may be shorter than the qubits (documented; full_invert_mask() pads it). A zip of the raw attribute '
+             '(or of a local bound to it, `mask or (False,) * n` included) with the qubits is accepted only where a missing position means "nothing to do" - the comprehension filters on '
+             'the mask bit - or the local is padded (`+ (False,) * deficit`) on the way; otherwise the trailing qubits silently get no element (no identity placeholder, no measurement)',
+             floor=floor, style='TNT')
+
+    def raw(e, fn, depth=0):
+        """True if e is the raw attribute / a local bound only to raw forms and never padded"""
+        if isinstance(e, ast.Attribute) and e.attr in ('invert_mask', '_invert_mask'):
+            return True
+        if isinstance(e, ast.BoolOp) and isinstance(e.op, ast.Or):
+            return raw(e.values[0], fn, depth)
+        if isinstance(e, ast.Call) and isinstance(e.func, ast.Name) and e.func.id in ('tuple', 'list') and e.args:
+            return raw(e.args[0], fn, depth)
+        if isinstance(e, ast.Name) and depth < 3:
+            vals = [a.value for a in ast.walk(fn) if isinstance(a, ast.Assign) and any(isinstance(t, ast.Name) and t.id == e.id for t in a.targets)]
+            vals += [a.value for a in ast.walk(fn) if isinstance(a, ast.AugAssign) and isinstance(a.target, ast.Name) and a.target.id == e.id]
+            if not vals:
+                return False
+            if any(isinstance(v, ast.BinOp) and isinstance(v.op, ast.Add) for v in vals) or any(isinstance(a, ast.AugAssign) and isinstance(a.target, ast.Name) and a.target.id == e.id
+                                                                                                   for a in ast.walk(fn)):
+                return False    # padded on the way
+            return any(raw(v, fn, depth + 1) for v in vals)
+        return False
+    n = 0
+    for m, ci, fn in _functions(repo, pid):
+        par = None
+        for c in ast.walk(fn):
+            if not (isinstance(c, ast.Call) and isinstance(c.func, ast.Name) and c.func.id == 'zip' and len(c.args) >= 2):
+                continue
+            idx = [i for i, a in enumerate(c.args) if raw(a, fn)]
+            if not idx:
+                continue
+            n += 1
+            ok = any(k.arg == 'strict' and isinstance(k.value, ast.Constant) and k.value.value is True for k in c.keywords)
+            par = par or m.parents()
+            comp = par.get(c)
+            if not ok and isinstance(comp, ast.comprehension) and comp.iter is c and isinstance(comp.target, ast.Tuple) and len(comp.target.elts) == len(c.args):
+                bit = comp.target.elts[idx[0]]
+                if isinstance(bit, ast.Name):
+                    for cond in comp.ifs:
+                        if (isinstance(cond, ast.Name) and cond.id == bit.id) or any(isinstance(x, ast.Name) and x.id == bit.id for x in ast.walk(cond)):
+                            ok = True
+            ctx.ob(rid, f'{m.name}.{(ci.name + ".") if ci else ""}{fn.name}:zip@{c.lineno - fn.lineno}', ok, '' if ok else
+                   f'`{ast.unparse(c)[:70]}` pairs the qubits with a raw invert_mask, which may be shorter: the qubits after the end of a partial mask get no element '
+                   '(use full_invert_mask() or pad the mask)', m.rel, c.lineno)
+    return n
+
+def shallow_hashable_test_rule(ctx, rid: str, pid: str, floor: int = 0):
+    """isinstance(x, Hashable) is not a test that hash(x) works for element data."""
+    repo = ctx.repo
+    ctx.rule(rid, 'hashability of data is decided by hashing it: `isinstance(x, Hashable)` only says the type defines __hash__ - a tuple holding a list passes and then fails inside '
+             'frozenset() / dict lookup / hash(). Where x is an element of a container being scanned (a loop or comprehension variable: arbitrary user data such as gate arguments), the '
+             'test must be a `hash(x)` attempt', floor=floor, style='TNT')
+    n = 0
+    for m, ci, fn in _functions(repo, pid):
+        elem = set()
+        for x in ast.walk(fn):
+            if isinstance(x, (ast.For, ast.comprehension)):
+                elem |= {y.id for y in ast.walk(x.target) if isinstance(y, ast.Name)}
+        if not elem:
+            continue
+        for c in ast.walk(fn):
+            if isinstance(c, ast.Call) and isinstance(c.func, ast.Name) and c.func.id == 'isinstance' and len(c.args) == 2 and isinstance(c.args[0], ast.Name) and c.args[0].id in elem:
+                names = [ast.unparse(e).split('.')[-1] for e in (c.args[1].elts if isinstance(c.args[1], ast.Tuple) else [c.args[1]])]
+                if names == ['Hashable']:
+                    n += 1
+                    ctx.ob(rid, f'{m.name}.{(ci.name + ".") if ci else ""}{fn.name}:{c.args[0].id}@{c.lineno - fn.lineno}', False,
+                           f'`{ast.unparse(c)}` decides whether the element `{c.args[0].id}` can be hashed: a tuple that holds a list is a Hashable instance and still raises TypeError '
+                           'when hashed - equality, hash and repr round trips of the owner then raise', m.rel, c.lineno)
+    return n
+
 FLOORS = {   # (z_fwd, z_drop, z_pair): about two thirds of the instances confirmed on the tree the rules were armed on
     'C01': (7, 40, 11),
     'C02': (4, 55, 8),
@@ -1143,11 +1285,14 @@ def apply(ctx, pid: str, only=None):
         'z_coord': lambda: coordinate_index_rule(ctx, f'{pid}.z_coord', pid, floor=0),
         'z_none': lambda: absence_test_rule(ctx, f'{pid}.z_none', pid, floor=0),
         'z_loop': lambda: one_shot_in_loop_rule(ctx, f'{pid}.z_loop', pid, floor=0),
+        'z_stale': lambda: stale_read_rule(ctx, f'{pid}.z_stale', pid, floor=0),
+        'z_mask': lambda: partial_mask_zip_rule(ctx, f'{pid}.z_mask', pid, floor=0),
+        'z_hash': lambda: shallow_hashable_test_rule(ctx, f'{pid}.z_hash', pid, floor=0),
     }
     out = {}
     for k, f in rules.items():
         if only is None or k in only:
             out[k] = f()
     ctx.decided.append(f'{pid}.z_* general rules on the functions attributed to this property: sibling calls forward the same parameters (z_fwd), a wrapper does not swallow an option its '
-                       'callee accepts (z_drop), positional pairing only over ordered collections (z_pair), presence of a key is not tested by truthiness of the value (z_get), constructors do not mutate their arguments (z_ctor), optional option bags are inputs only (z_opt), generators are consumed once (z_gen), a lazily memoised field is dropped wherever its source fields are reassigned (z_memo), x[0] / x[-1] only where the function\'s own emptiness test protects it (z_first), a back-mapping built in a nested loop does not drop owners (z_inv), a qubit coordinate becomes a position only after a sign check (z_coord), call sites of one `T | None` function agree that absent means None (z_none), a one-shot iterable parameter is not consumed per loop iteration (z_loop)')
+                       'callee accepts (z_drop), positional pairing only over ordered collections (z_pair), presence of a key is not tested by truthiness of the value (z_get), constructors do not mutate their arguments (z_ctor), optional option bags are inputs only (z_opt), generators are consumed once (z_gen), a lazily memoised field is dropped wherever its source fields are reassigned (z_memo), x[0] / x[-1] only where the function\'s own emptiness test protects it (z_first), a back-mapping built in a nested loop does not drop owners (z_inv), a qubit coordinate becomes a position only after a sign check (z_coord), call sites of one `T | None` function agree that absent means None (z_none), a one-shot iterable parameter is not consumed per loop iteration (z_loop), a read-modify-write of X[b] does not straddle a store to X[a] when a and b may coincide (z_stale), a raw partial invert_mask is not paired with the qubits position by position (z_mask), hashability of element data is decided by hash(), not by isinstance(x, Hashable) (z_hash)')
     return out
